@@ -140,6 +140,87 @@ def address_map_part(rep):
     return n
 
 
+FILLS = 4
+
+
+def api_fill(k, seed):
+    if k == 0:
+        return lambda a: 0xFFFF
+    if k == 1:
+        return lambda a: 0x8000 | (a & 1)
+    return lambda a: ((a * 2654435761 + k * 40503 + seed * 7919) >> 7) & 0xFFFF
+
+
+def job_api(j):
+    """End to end on configured objects: every value in a read_runtime_data() result is the documented reading of the
+    device model's registers at the sensor's pinned address - whatever read_device_info made of the sensor tables for
+    this model, whichever blocks the values travelled in, over real transports."""
+    import json
+    import os
+    from ..configs import make_rig
+    cfg, transport, seed = j
+    fam = cfg['family']
+    pinned = json.load(open(os.path.join(os.path.dirname(os.path.dirname(__file__)), 'data', 'address_map.json')))
+    rows = {}
+    for tab, lst in pinned.items():
+        if tab.startswith(fam + '.'):
+            for row in lst:
+                rows.setdefault(row[0], []).append(row)
+    vio = {}
+    n = 0
+
+    def bad(key, sid, cause, k):
+        vio.setdefault(key, []).append(dict(key=key, clause=key.split('/')[0].split(':')[1],
+                                            replay=dict(part='api', cfg=cfg, transport=transport, seed=seed),
+                                            detail=dict(sensor=sid, cause=cause, fill=k, model=cfg['tag'], rated=cfg['power'])))
+    for k in range(FILLS):
+        world.reset()
+        r = make_rig(cfg, transport, fill=api_fill(k, seed))
+        inv = r.inv
+        if fam == 'ES':
+            f = api_fill(k, seed)
+            for i in range(len(r.dev.runtime)):
+                r.dev.runtime[i] = f(i) & 0xFF
+        if r.call(inv.read_device_info)[0] != 'ok':
+            continue
+        l0 = len(r.dev.log)
+        st = r.call(inv.read_runtime_data)
+        if st[0] != 'ok':
+            continue
+        d = st[1]
+        windows = [(q['reg'], q['reg'] + q['count'] - 1) for q in r.dev.log[l0:] if q.get('fn') == 3]
+        ids = [s.id_ for s in inv.sensors()]
+        for s in inv.sensors():
+            if not own_span(s) or s.id_ not in d:
+                continue
+            if ids.count(s.id_) > 1:
+                continue      # two sensors share the id, the result has one slot: which one fills it is C16's subject
+            if fam != 'ES' and not any(lo <= s.offset and s.offset + (refdec.size_of(s) + 1) // 2 - 1 <= hi for lo, hi in windows):
+                continue      # registers not inside a block that was fetched: C14's subject
+            row = [s.id_, tname(s), s.offset, getattr(s, 'scale', None), getattr(s, '_offsetL', None), s.unit]
+            if s.id_ in rows and row not in rows[s.id_]:
+                bad(f'api:register-map/{fam}/{s.id_}', s.id_, f'object uses {row}, documented {rows[s.id_]}', k)
+                continue
+            nb = refdec.size_of(s)
+            if fam == 'ES':
+                if s.offset + nb > len(r.dev.runtime):
+                    continue
+                own = bytes(r.dev.runtime[s.offset:s.offset + nb])
+            else:
+                own = r.dev.rf.getbytes(s.offset, (nb + 1) // 2)[:nb]
+            ref = refdec.decode(s, own)
+            got = ('ValueError', '') if (d[s.id_] is None and ref is refdec.NOVALUE) else ('value', d[s.id_])
+            n += 1
+            df = compare(s, got, ref)
+            if df:
+                bad(f'api:documented-reading/{fam}/{tname(s)}', s.id_, f'{s.id_} @{s.offset} = {own.hex()}: {df}', k)
+    res = []
+    for key, lst in vio.items():
+        lst[0]['n'] = len(lst)
+        res.append(lst[0])
+    return n, res
+
+
 def sample_case(fam, table, sid, own_hex, seed):
     t = [x for x in all_tables() if x.family == fam and x.name == table][0]
     s = [x for x in t.sensors if x.id_ == sid][0]
@@ -239,6 +320,13 @@ def run(tier, seed, rep):
     for n, res in pmap(job_table, [(i, seed) for i in range(len(all_tables()))]):
         ntab += n
         rep.add_many(res)
+    from .c13 import api_configs
+    napi = 0
+    acfgs = api_configs(tier, seed)
+    ajobs = [(c, 'udp', seed) for c in acfgs] + [(c, 'tcp', seed) for c in acfgs if c['family'] != 'ES'][::5]
+    for n, res in pmap(job_api, ajobs):
+        napi += n
+        rep.add_many(res)
     tabs, jobs = sensor_jobs(tier, seed)
     jobs = [j + (seed,) for j in jobs]
     total = nontriv = 0
@@ -250,7 +338,8 @@ def run(tier, seed, rep):
         rep.add_many(res)
         per_type[info[3]] = per_type.get(info[3], 0) + 1
         nfull += bool(info[4])
-    cov = dict(evaluations=total + nmap + ntab, uniform_table_evaluations=ntab, distinct_nontrivial=nontriv, register_map_entries_compared=nmap,
+    cov = dict(api_values_compared=napi, api_configurations=len(ajobs),
+               evaluations=total + nmap + ntab + napi, uniform_table_evaluations=ntab, distinct_nontrivial=nontriv, register_map_entries_compared=nmap,
                rule='for every sensor with own registers of every table of ET, DT, ES: own-register contents '
                     '(all 65536 values of 2-byte fields and of each half of 4-byte fields, all 256 values of 1-byte fields '
                     'x other half, per-byte and per-word exhaustive for 6/8/12-byte groups over valid baselines) embedded '
@@ -270,6 +359,13 @@ def run(tier, seed, rep):
 
 
 def replay(r):
+    if r.get('part') == 'api':
+        cfg = r['cfg']
+        cfg['refused'] = tuple(cfg['refused'])
+        if isinstance(cfg.get('firmware'), str):
+            cfg['firmware'] = cfg['firmware'].encode()
+        n, res = job_api((cfg, r['transport'], r['seed']))
+        return dict(values=n, violations=[(v['key'], v['detail']['cause']) for v in res])
     tabs = all_tables()
     t = [x for x in tabs if [x.family, x.name] == r['table']][0]
     s = [x for x in t.sensors if x.id_ == r['sensor']][0]
